@@ -34,7 +34,10 @@ def interval(ws, g):
 
 def ids_for(tier):
     n = 512 if tier == "quick" else 4096
-    return list(range(n)) + [f"user{i}@example.com" for i in range(n // 8)] + ["", "é", "00000001"]
+    from ..enum import collide
+
+    twins = [x for pre, a, b in collide.crc32_id_pairs(prefixes=("",)) for x in (a, b)]  # crc32-colliding keys of equal length
+    return list(range(n)) + [f"user{i}@example.com" for i in range(n // 8)] + ["", "é", "00000001"] + twins
 
 
 def observe(acc, v, ids, labels=None, salt=None):
@@ -93,6 +96,9 @@ def run(res, tier):
     N = 3 if tier == "quick" else 4
     vs = [(v, None) for v in ew.small_vectors(N)] + [(v, None) for v in ew.families()]
     vs += [([str(t), str(10 - t)], None) for t in range(0, 11)]
+    from . import c03 as _c03
+
+    vs += [(v, None) for v in _c03.special_vectors()]  # weights with >= 7 significant digits / tiny multi-digit decimals
     vs += [(["1", "2", "3"], ["zeta", "alpha", "mid"]), (["1", "2", "3"], [3, 1.5, "g"]), (["1", "9"], ["B", "A"])]
     units = [("vec", v, ids, labels) for v, labels in vs]
     merged = {}
